@@ -43,15 +43,33 @@ def expOk : List Char → Bool
   | [] => true
   | e :: r => (e == 'e' || e == 'E') && !(stripSign r).isEmpty && (stripSign r).all isDigit
 
+def digitsNat (ds : List Char) : Nat := ds.foldl (fun n c => 10 * n + (c.toNat - '0'.toNat)) 0
+
+/-- does the decimal `D · 10^(e − nfrac)` (digits `ds = D`, written exponent `ex`) round to the double 0.0?  Exactly
+when it is at most 2^-1075, half of the smallest subnormal (the tie goes to the even neighbour, 0): Python's `float`
+is correctly rounded.  `1.2e-431` is "zero" for `cellcard.split`, `4.9e-324` is not. -/
+def underflows (ds : List Char) (nfrac : Nat) (ex : List Char) : Bool :=
+  let d := digitsNat ds
+  let neg := match ex with | _ :: '-' :: _ => true | _ => false
+  let e := digitsNat (stripSign (ex.drop 1))
+  if d == 0 then true
+  else if !neg then
+    -- 10^k with k = e − nfrac ≥ 0 is ≥ 1; with k < 0 the decimal is d / 10^(nfrac − e)
+    if nfrac ≤ e then false else d * 2 ^ 1075 ≤ 10 ^ (nfrac - e)
+  else
+    -- d / 10^(nfrac + e): beyond 400 + (number of digits) places the value is below 1e-400 < 2^-1075
+    if nfrac + e ≥ 400 + ds.length then true else d * 2 ^ 1075 ≤ 10 ^ (nfrac + e)
+
 /-- Python's `float(tok)` on the decimal spellings `[sign] digits [. digits] [e [sign] digits]` (at least one digit in
-the mantissa): `some true` when the value is zero, `some false` when it is not, `none` when `float` raises (other
-spellings Python accepts — `inf`, `nan`, underscores — are outside the model) -/
+the mantissa): `some true` when the value is the double zero (the decimal is zero **or underflows to it**),
+`some false` when it is not, `none` when `float` raises (other spellings Python accepts — `inf`, `nan`, underscores —
+are outside the model) -/
 def floatZero? (tok : List Char) : Option Bool :=
   let t := stripSign tok
   let ip := t.takeWhile isDigit
   let fr := fracPart (t.dropWhile isDigit)
   if ip.isEmpty && fr.1.isEmpty then none else
-  if !expOk fr.2 then none else some ((ip ++ fr.1).all (· == '0'))
+  if !expOk fr.2 then none else some (underflows (ip ++ fr.1) fr.1.length fr.2)
 
 inductive SplitErr | tooFew | notFloat | noMatch
 deriving Repr, DecidableEq
